@@ -18,6 +18,10 @@
      Done / Fault / Hang   normal return / nil-dereference panic / a loop that
                       does not terminate (fuel = heap size + 1 exhausted).
 
+     checkpointed     [runq_model]: the same steps, the list looked at (Each,
+     history          First/Last) only at the [QLook]s of the history, not after
+                      every step — the form the harness uses for long lists.
+
    No theorem needs the inserted values to be distinct: a handle obtained from
    Find is the first occurrence of its value, and every statement speaks about
    first occurrences.  (With distinct values "first occurrence" is "the"
@@ -66,14 +70,77 @@ Print Assumptions C19_reachable_heap_is_seq.
    the observations c19_agree accepts *)
 Theorem C19_checker_is_spec : forall w, c19_run w = c19_spec w.
 Proof.
-  intros w. unfold c19_run, c19_spec. destruct (decode w) as [[[k v] ops]|]; [|reflexivity].
-  rewrite <- history_refines_spec.
-  induction (run_model k v ops) as [|o os IH]; [reflexivity|].
-  cbn [flat_map map]. rewrite IH. f_equal.
-  destruct o as [r vs fl| |]; try reflexivity.
-  destruct r; try reflexivity. cbn. destruct (k0 =? 0); reflexivity.
+  intros w. unfold c19_run, c19_spec. destruct (decode w) as [[[k v] ops]|].
+  - rewrite <- history_refines_spec.
+    induction (run_model k v ops) as [|o os IH]; [reflexivity|].
+    cbn [flat_map map]. rewrite IH. f_equal.
+    destruct o as [r vs fl| |]; try reflexivity.
+    destruct r; try reflexivity. cbn. destruct (k0 =? 0); reflexivity.
+  - destruct (decode_q w) as [[[k v] ops]|]; [|reflexivity].
+    rewrite <- checkpointed_refines_spec.
+    induction (runq_model k v ops) as [|o os IH]; [reflexivity|].
+    cbn [flat_map map]. rewrite IH. f_equal.
+    destruct o as [r|vs fl| |]; try reflexivity.
+    destruct r; try reflexivity. cbn. destruct (k0 =? 0); reflexivity.
 Qed.
 Print Assumptions C19_checker_is_spec.
+
+(* ---------- checkpointed histories (lists of any size, looked at only where
+   the history says so: the form the "large" stream of the harness uses) ---------- *)
+
+(* every call's result and every checkpoint (Each sequence, First/Last) of
+   every checkpointed history is the reference list machine's *)
+Theorem C19_checkpointed_history_refines_spec : forall k v ops,
+  map proj_qobs (runq_model k v ops) = runq_spec k v ops.
+Proof. exact checkpointed_refines_spec. Qed.
+Print Assumptions C19_checkpointed_history_refines_spec.
+
+(* no panic, no hang; every checkpoint shows a non-empty sequence whose
+   First/Last are its two ends *)
+Theorem C19_checkpointed_no_panic_no_hang_never_empty : forall k v ops,
+  length (runq_model k v ops) = length ops /\
+  Forall (fun o => match o with
+                   | QSeen vs fl => vs <> [] /\ fl = spec_fl k vs
+                   | QRes _ => True
+                   | QFault | QHang => False
+                   end) (runq_model k v ops).
+Proof.
+  intros k v ops. split; [apply checkpointed_complete|].
+  eapply Forall_impl; [|apply checkpointed_only_steps]. intros [r|vs fl| |]; cbn; auto.
+Qed.
+Print Assumptions C19_checkpointed_no_panic_no_hang_never_empty.
+
+(* what a checkpoint shows does not depend on where the list was looked at
+   before: it is the reference sequence after the calls made so far *)
+Theorem C19_checkpoint_shows_sequence_so_far : forall k v ops,
+  map proj_qobs (runq_model k v (ops ++ [QLook])) =
+  map proj_qobs (runq_model k v ops) ++
+  [let ys := spec_final k v (qops_ops ops) in QSeen ys (spec_fl k ys)].
+Proof. exact checkpoint_shows_sequence_so_far. Qed.
+Print Assumptions C19_checkpoint_shows_sequence_so_far.
+
+(* "No edit loses, duplicates or reorders the other elements": between two
+   consecutive states of ANY history the sequence is unchanged, or one value
+   was put in at one place, or one element was taken out, or one element's
+   value was changed — all other elements keep value, multiplicity and place.
+   (Clear, which is outside the property's list of operations, keeps the
+   first element only: C19_dlist_clear.) *)
+Theorem C19_every_edit_touches_one_position : forall k v ops o,
+  o <> Clear ->
+  let xs := spec_final k v ops in
+  let xs' := spec_final k v (ops ++ [o]) in
+  xs' = xs \/
+  (exists l1 l2 x, xs = l1 ++ l2 /\ xs' = l1 ++ x :: l2) \/
+  (exists l1 x l2, xs = l1 ++ x :: l2 /\ xs' = l1 ++ l2) \/
+  (exists l1 x l2 y, xs = l1 ++ x :: l2 /\ xs' = l1 ++ y :: l2).
+Proof.
+  intros k v ops o Hc. cbv zeta. destruct (history_one_edit k v ops o Hc) as [|l1 l2 x E|l1 x l2 E|l1 x l2 y E].
+  - left; reflexivity.
+  - right; left. exists l1, l2, x. split; [exact E|reflexivity].
+  - right; right; left. exists l1, x, l2. split; [exact E|reflexivity].
+  - right; right; right. exists l1, x, l2, y. split; [exact E|reflexivity].
+Qed.
+Print Assumptions C19_every_edit_touches_one_position.
 
 (* ====================================================================== *)
 (* 2. One step: every operation has exactly its sequence meaning           *)
@@ -106,6 +173,28 @@ Print Assumptions C19_dlist_step_refines.
 Theorem C19_always_nonempty : forall pf m xs, is_seq pf m xs -> xs <> [].
 Proof. exact is_seq_nonempty. Qed.
 Print Assumptions C19_always_nonempty.
+
+(* Node handles "obtained from Find immediately before use".  In every state
+   that holds a sequence xs, Find of a present value returns a handle — so the
+   hypothesis [xx_find m a = Done (m1, Some h)] of the handle theorems below
+   is met for EVERY present value, and forces m1 = m — the handle is the
+   address of a node that carries the value, and Find leaves the whole heap as
+   it was; Find of an absent value returns nil.  (That the handle is the FIRST
+   node carrying the value is what the insert / delete theorems say: they
+   place / remove relative to the first occurrence.) *)
+Theorem C19_slist_find_handle : forall m xs a,
+  is_seq pf_s m xs ->
+  (In a xs -> exists h nd, sl_find m a = Done (m, Some h) /\ load m h = Some nd /\ val nd = a) /\
+  (~ In a xs -> sl_find m a = Done (m, None)).
+Proof. exact s_find_handle. Qed.
+Print Assumptions C19_slist_find_handle.
+
+Theorem C19_dlist_find_handle : forall m xs a,
+  is_seq pf_d m xs ->
+  (In a xs -> exists h nd, dl_find m a = Done (m, Some h) /\ load m h = Some nd /\ val nd = a) /\
+  (~ In a xs -> dl_find m a = Done (m, None)).
+Proof. exact d_find_handle. Qed.
+Print Assumptions C19_dlist_find_handle.
 
 (* ---------- SList, method by method ---------- *)
 
@@ -295,6 +384,27 @@ Proof.
   exists m, h. split; [exact E|]. split; [exact R|]. split; [exact Hf|].
   exact (s_delete m _ 3 h m R Hf).
 Qed.
+
+(* values that repeat (outside the property's quantifier, inside every theorem
+   above): a Find handle is the FIRST node carrying the value, so InsertAfter,
+   Replace and Delete act on the first occurrence and leave the later ones *)
+Example C19_ex_duplicates : forall k,
+  map (fun o => match o with OStep r vs _ => (proj_ret r, vs) | _ => (RUnsup, []) end)
+      (run_model k 1 [Append 2; Append 1; InsertAfter 1 9; Replace 1 7; Delete 1; Delete 1; Unshift 2; Delete 2]) =
+  [(RVoid, [1; 2]); (RVoid, [1; 2; 1]); (err_if false, [1; 9; 2; 1]); (err_if false, [7; 9; 2; 1]);
+   (err_if false, [7; 9; 2]); (RSkip, [7; 9; 2]); (RVoid, [2; 7; 9; 2]); (err_if false, [7; 9; 2])].
+Proof. intros [|]; vm_compute; reflexivity. Qed.
+
+(* the single-element list: Shift and Pop remove nothing (DList.Shift zeroes
+   the value), Delete refuses, and the list is usable afterwards *)
+Example C19_ex_singleton :
+  map (fun o => match o with OStep r vs _ => (proj_ret r, vs) | _ => (RUnsup, []) end)
+      (run_model KS 5 [Shift; Pop; Delete 5; Append 6; Pop; Delete 5]) =
+    [(RVoid, [5]); (RVoid, [5]); (err_if true, [5]); (RVoid, [5; 6]); (RVoid, [5]); (err_if true, [5])] /\
+  map (fun o => match o with OStep r vs _ => (proj_ret r, vs) | _ => (RUnsup, []) end)
+      (run_model KD 5 [Pop; Delete 5; Shift; Append 6; Pop; Delete 0; Clear]) =
+    [(RVoid, [5]); (err_if true, [5]); (RVoid, [0]); (RVoid, [0; 6]); (RVoid, [0]); (err_if true, [0]); (RVoid, [0])].
+Proof. split; vm_compute; reflexivity. Qed.
 
 (* ====================================================================== *)
 (* 3. The DList code BEFORE the repairs violates C19 (why the patches exist) *)
